@@ -29,19 +29,28 @@ with type_depth (t : ctype) : nat := match t with CType t _ => ty_depth t end.
 
 (* what follows a Ty: an optional blank and then something that is neither a cpp_type clause nor a '.'; if there is no
    blank and the type ends with a word, something that ends the word *)
+Definition nolt (k : list byte) : bool := hd_sat (fun b => negb (Byte.eqb b x3c)) k.
 Definition tyfollow0 (lf : nat) (ends_word : bool) (k : list byte) : Prop :=
   exists bl k', k = pr_blank bl k' /\ wf_blank bl = true /\ nb k' = true /\
-    is_perr (p_cpp_type lf k') /\ is_perr (tag sym_path_dot k') /\
+    is_perr (p_cpp_type lf k') /\ is_perr (tag sym_path_dot k') /\ nolt k' = true /\
     (bl = [] -> ends_word = true -> wordend k' = true).
+
+(* what follows an optional cpp_type clause: an optional blank and then something that is not the word cpp_type
+   followed by a blank and a literal *)
+Definition cppfollow (lf : nat) (k : list byte) : Prop :=
+  exists bl k', k = pr_blank bl k' /\ wf_blank bl = true /\ nb k' = true /\ is_perr (p_cpp_type lf k').
 
 (* what follows a Type: the same, and not an annotation list either *)
 Definition tyfollow (lf : nat) (ends_word : bool) (k : list byte) : Prop :=
   exists bl k', k = pr_blank bl k' /\ wf_blank bl = true /\ nb k' = true /\
-    is_perr (p_cpp_type lf k') /\ is_perr (tag sym_path_dot k') /\ is_perr (p_annotations lf k') /\
+    is_perr (p_cpp_type lf k') /\ is_perr (tag sym_path_dot k') /\ is_perr (p_annotations lf k') /\ nolt k' = true /\
     (bl = [] -> ends_word = true -> wordend k' = true).
 
 Lemma tyfollow_0 lf e k : tyfollow lf e k -> tyfollow0 lf e k.
-Proof. intros [bl [k' [E [Hw [Hn [Hc [Hd [_ He]]]]]]]]. exists bl, k'. tauto. Qed.
+Proof. intros [bl [k' [E [Hw [Hn [Hc [Hd [_ [Hl He]]]]]]]]]. exists bl, k'. tauto. Qed.
+
+Lemma tyfollow0_cpp lf e k : tyfollow0 lf e k -> cppfollow lf k.
+Proof. intros [bl [k' [E [Hw [Hn [Hc _]]]]]]. exists bl, k'. tauto. Qed.
 
 Fixpoint mism (kw s : list byte) : bool :=
   match kw, s with
@@ -121,13 +130,13 @@ Hypothesis Hlf : length whole < lf.
 
 Lemma follow_wordend e k : tyfollow0 lf e k -> e = true -> wordend k = true.
 Proof.
-  intros [bl [k' [-> [Hw [Hn [_ [_ Hwe]]]]]]] He. apply blank_then; auto. apply blank_start_wordend.
+  intros [bl [k' [-> [Hw [Hn [_ [_ [_ Hwe]]]]]]]] He. apply blank_then; auto. apply blank_start_wordend.
 Qed.
 
-Lemma follow_nocpp e k : tyfollow0 lf e k -> sfx k whole ->
+Lemma follow_nocpp k : cppfollow lf k -> sfx k whole ->
   opt (fun i => do i, _ <- p_blank lf i ;; p_cpp_type lf i) k = POk k None.
 Proof.
-  intros [bl [k' [-> [Hw [Hn [Hc _]]]]]] S. apply opt_err. destruct bl as [|a bl].
+  intros [bl [k' [-> [Hw [Hn Hc]]]]] S. apply opt_err. destruct bl as [|a bl].
   - cbn [pr_blank]. apply pbind_err, blank_err, Hn.
   - rewrite (rt_blank lf (a :: bl) k' Hw ltac:(discriminate) Hn (sfx_lt lf whole _ Hlf S)). cbn [pbind]. exact Hc.
 Qed.
@@ -145,11 +154,18 @@ Proof.
   destruct (oblank lf whole Hlf bl k' Hw Hn S) as [o ->]. apply pbind_err, Ha.
 Qed.
 
-Lemma tyfollow_punct e bl c r : wf_blank bl = true -> (c = x3e \/ c = x2c \/ c = x3b \/ c = x3c) -> tyfollow lf e (pr_blank bl (c :: r)).
+Lemma tyfollow_punct e bl c r : wf_blank bl = true -> (c = x3e \/ c = x2c \/ c = x3b) -> tyfollow lf e (pr_blank bl (c :: r)).
 Proof.
   intros Hw Hc. exists bl, (c :: r). split; [reflexivity|]. split; [exact Hw|].
-  destruct Hc as [->|[->|[->| ->]]]; repeat split; try reflexivity; try exact I;
+  destruct Hc as [->|[->| ->]]; repeat split; try reflexivity; try exact I;
     try (unfold p_cpp_type; apply pbind_err; exact I); try (unfold p_annotations; apply pbind_err; exact I).
+Qed.
+
+(* the '<' of a container type after its (absent) cpp_type clause; the '.' of a path *)
+Lemma cppfollow_punct bl c r : wf_blank bl = true -> (c = x3c \/ c = x2e) -> cppfollow lf (pr_blank bl (c :: r)).
+Proof.
+  intros Hw Hc. exists bl, (c :: r). split; [reflexivity|]. split; [exact Hw|].
+  destruct Hc as [->| ->]; repeat split; try reflexivity; unfold p_cpp_type; apply pbind_err; exact I.
 Qed.
 
 (* a Ty followed by the annotation list of its Type *)
@@ -196,19 +212,51 @@ Proof. intros H. apply tag_hd_ne. destruct (Byte.eqb c x3c) eqn:E; [|reflexivity
 Lemma nb_sep semi x : nb (sep_byte semi :: x) = true.
 Proof. destruct semi; reflexivity. Qed.
 
+Lemma bytes_eq_eq a : forall b, bytes_eq a b = true -> a = b.
+Proof.
+  induction a as [|x a IH]; intros [|y b] H; cbn [bytes_eq] in H; try discriminate; [reflexivity|].
+  apply andb_prop in H. destruct H as [H1 H2]. apply byte_dec_bl in H1. subst. f_equal. auto.
+Qed.
+
+Lemma nolt_err k : nolt k = true -> is_perr (tag [x3c] k).
+Proof. destruct k as [|c k]; [intros _; exact I|]. cbn. intros H. apply tag_hd_ne. now apply negb_true_iff in H. Qed.
+
+(* the words list / set / map as type names: what follows the word (the rest of the path, then what follows the type)
+   is, after an optional blank, not a '<' -- and not a cpp_type clause *)
+Lemma tail_nolt {A} (rest : parser A) tl k e :
+  forallb (fun x => wf_blank (fst (fst x)) && wf_blank (snd (fst x)) && is_ident (snd x)) tl = true ->
+  tyfollow0 lf e k -> sfx (pr_path_tail tl k) whole ->
+  is_perr ((fun i => do i, _ <- opt (p_blank lf) i ;; do i, _ <- tag [x3c] i ;; rest i) (pr_path_tail tl k)).
+Proof.
+  intros Ht Hf S. cbn beta. destruct tl as [|[[b1 b2] s0] tl]; cbn [pr_path_tail] in *.
+  - destruct Hf as [bl [k' [-> [Hw [Hn [_ [_ [Hl _]]]]]]]].
+    destruct (oblank lf whole Hlf bl k' Hw Hn S) as [o ->]. cbn [pbind]. apply pbind_err, nolt_err, Hl.
+  - cbn [forallb fst snd] in Ht. bsplit Ht.
+    destruct (oblank lf whole Hlf b1 (txt "." ++ pr_blank b2 (s0 ++ pr_path_tail tl k)) Ht eq_refl S) as [o ->]. cbn [pbind].
+    apply pbind_err. exact I.
+Qed.
+
+Lemma tail_cppfollow tl k e :
+  forallb (fun x => wf_blank (fst (fst x)) && wf_blank (snd (fst x)) && is_ident (snd x)) tl = true ->
+  tyfollow0 lf e k -> cppfollow lf (pr_path_tail tl k).
+Proof.
+  intros Ht Hf. destruct tl as [|[[b1 b2] s0] tl]; cbn [pr_path_tail] in *; [exact (tyfollow0_cpp _ _ _ Hf)|].
+  cbn [forallb fst snd] in Ht. bsplit Ht. apply (cppfollow_punct b1 x2e); [assumption|tauto].
+Qed.
+
 Ltac ob S := obk lf whole Hlf S ltac:(first [reflexivity | apply nb_sep | apply type_head_nb; assumption]).
 
 (* the optional cpp_type clause of a container type *)
-Lemma ocpp_ok cpp k : wf_ocpp cpp = true -> (cpp = None -> tyfollow0 lf false k) -> sfx (pr_ocpp cpp k) whole ->
+Lemma ocpp_ok cpp k : wf_ocpp cpp = true -> (cpp = None -> cppfollow lf k) -> sfx (pr_ocpp cpp k) whole ->
   opt (fun i => do i, _ <- p_blank lf i ;; p_cpp_type lf i) (pr_ocpp cpp k) = POk k (erase_ocpp cpp).
 Proof.
   intros Hw Hf S. destruct cpp as [c|]; cbn [pr_ocpp wf_ocpp erase_ocpp option_map] in *.
   - apply opt_ok. exact (rt_cpp lf whole Hlf c k Hw S).
-  - exact (follow_nocpp false k (Hf eq_refl) S).
+  - exact (follow_nocpp k (Hf eq_refl) S).
 Qed.
 
 Lemma tyfollow0_weaken e k : tyfollow0 lf e k -> tyfollow0 lf false k.
-Proof. intros [bl [k' [E [Hw [Hn [Hc [Hd _]]]]]]]. exists bl, k'. repeat split; auto. discriminate. Qed.
+Proof. intros [bl [k' [E [Hw [Hn [Hc [Hd [Hl _]]]]]]]]. exists bl, k'. repeat split; auto. discriminate. Qed.
 
 Lemma rt_ty : forall d t k,
   ty_depth t < d -> wf_ty t = true -> tyfollow0 lf (ty_ends_word t) k -> sfx (pr_ty t k) whole ->
@@ -243,7 +291,7 @@ Proof.
       by (apply (tyfollow_punct _ b3 x3e); [assumption|tauto]).
     rewrite (IHT inner _ ltac:(clear - Hd; lia) ltac:(assumption) F3 ltac:(sfx_of S)). cbn [pbind].
     ob S. tg sym_list_gt (txt ">").
-    rewrite (ocpp_ok cpp k ltac:(assumption) (fun _ => Hf) ltac:(sfx_of S)). reflexivity.
+    rewrite (ocpp_ok cpp k ltac:(assumption) (fun _ => tyfollow0_cpp _ _ _ Hf) ltac:(sfx_of S)). reflexivity.
   - (* set *)
     cbn [pr_ty erase_ty wf_ty ty_depth] in *. bsplit Hw.
     rewrite alt_skip by (apply base_alts_err; repeat apply Forall_cons; try apply Forall_nil; reflexivity).
@@ -251,7 +299,7 @@ Proof.
     apply alt_ok. unfold alt_set.
     tg kw_ty_set (txt "set").
     match goal with |- context [opt _ (pr_ocpp cpp ?X)] =>
-      assert (Fl : tyfollow0 lf false X) by (apply tyfollow_0, (tyfollow_punct _ b1 x3c); [assumption|tauto]);
+      assert (Fl : cppfollow lf X) by (apply (cppfollow_punct b1 x3c); [assumption|tauto]);
       rewrite (ocpp_ok cpp X ltac:(assumption) (fun _ => Fl) ltac:(sfx_of S)) end.
     cbn [pbind]. ob S. tg sym_set_lt (txt "<"). ob S.
     assert (F3 : tyfollow lf (type_ends_word inner) (pr_blank b3 (txt ">" ++ k)))
@@ -266,7 +314,7 @@ Proof.
     apply alt_ok. unfold alt_map.
     tg kw_ty_map (txt "map").
     match goal with |- context [opt _ (pr_ocpp cpp ?X)] =>
-      assert (Fl : tyfollow0 lf false X) by (apply tyfollow_0, (tyfollow_punct _ b1 x3c); [assumption|tauto]);
+      assert (Fl : cppfollow lf X) by (apply (cppfollow_punct b1 x3c); [assumption|tauto]);
       rewrite (ocpp_ok cpp X ltac:(assumption) (fun _ => Fl) ltac:(sfx_of S)) end.
     cbn [pbind]. ob S. tg sym_map_lt (txt "<"). ob S.
     assert (Fk : tyfollow lf (type_ends_word key) (pr_blank b3 (sep_byte semi :: pr_blank b4 (pr_type value (pr_blank b5 (txt ">" ++ k)))))).
@@ -291,25 +339,37 @@ Proof.
     assert (Hk1 : hd_sat (fun b => negb (identch b)) k = true).
     { apply wordend_identch, (follow_wordend _ k Hf eq_refl). }
     pose proof (path_tail_head tl k Ht Hk1) as Hrest.
-    apply negb_true_iff in Hnw. cbn [bytes_in type_words] in Hnw.
+    apply negb_true_iff in Hnw. cbn [bytes_in base_words] in Hnw.
     repeat (apply orb_false_elim in Hnw; destruct Hnw as [? Hnw]).
     rewrite alt_skip.
     2:{ unfold base_alts. repeat apply Forall_cons; try apply Forall_nil;
           (apply base_ident_err; [reflexivity|exact Hh|exact Hrest|assumption]). }
+    assert (ST : sfx (pr_path_tail tl k) whole) by (sfx_of S).
     rewrite alt_err.
-    2:{ apply (container_word_err kw_ty_list _ h _ eq_refl Hh Hrest); [assumption|]. intros c r Hc.
-        rewrite (opt_err (p_blank lf)) by (now apply identch_not_blank). cbn [pbind]. apply pbind_err.
-        change sym_list_lt with [x3c]. now apply identch_not_lt. }
+    2:{ destruct (bytes_eq h kw_ty_list) eqn:El.
+        - apply bytes_eq_eq in El. subst h. unfold alt_list. rewrite tag_ok. cbn [pbind].
+          change sym_list_lt with [x3c]. exact (tail_nolt _ tl k _ Ht Hf ST).
+        - apply (container_word_err kw_ty_list _ h _ eq_refl Hh Hrest); [assumption|]. intros c r Hc.
+          rewrite (opt_err (p_blank lf)) by (now apply identch_not_blank). cbn [pbind]. apply pbind_err.
+          change sym_list_lt with [x3c]. now apply identch_not_lt. }
     rewrite alt_err.
-    2:{ apply (container_word_err kw_ty_set _ h _ eq_refl Hh Hrest); [assumption|]. intros c r Hc.
-        rewrite opt_err by (apply pbind_err; now apply identch_not_blank). cbn [pbind].
-        rewrite (opt_err (p_blank lf)) by (now apply identch_not_blank). cbn [pbind]. apply pbind_err.
-        change sym_set_lt with [x3c]. now apply identch_not_lt. }
+    2:{ destruct (bytes_eq h kw_ty_set) eqn:El.
+        - apply bytes_eq_eq in El. subst h. unfold alt_set. rewrite tag_ok. cbn [pbind].
+          rewrite (follow_nocpp _ (tail_cppfollow tl k _ Ht Hf) ST). cbn [pbind].
+          change sym_set_lt with [x3c]. exact (tail_nolt _ tl k _ Ht Hf ST).
+        - apply (container_word_err kw_ty_set _ h _ eq_refl Hh Hrest); [assumption|]. intros c r Hc.
+          rewrite opt_err by (apply pbind_err; now apply identch_not_blank). cbn [pbind].
+          rewrite (opt_err (p_blank lf)) by (now apply identch_not_blank). cbn [pbind]. apply pbind_err.
+          change sym_set_lt with [x3c]. now apply identch_not_lt. }
     rewrite alt_err.
-    2:{ apply (container_word_err kw_ty_map _ h _ eq_refl Hh Hrest); [assumption|]. intros c r Hc.
-        rewrite opt_err by (apply pbind_err; now apply identch_not_blank). cbn [pbind].
-        rewrite (opt_err (p_blank lf)) by (now apply identch_not_blank). cbn [pbind]. apply pbind_err.
-        change sym_map_lt with [x3c]. now apply identch_not_lt. }
+    2:{ destruct (bytes_eq h kw_ty_map) eqn:El.
+        - apply bytes_eq_eq in El. subst h. unfold alt_map. rewrite tag_ok. cbn [pbind].
+          rewrite (follow_nocpp _ (tail_cppfollow tl k _ Ht Hf) ST). cbn [pbind].
+          change sym_map_lt with [x3c]. exact (tail_nolt _ tl k _ Ht Hf ST).
+        - apply (container_word_err kw_ty_map _ h _ eq_refl Hh Hrest); [assumption|]. intros c r Hc.
+          rewrite opt_err by (apply pbind_err; now apply identch_not_blank). cbn [pbind].
+          rewrite (opt_err (p_blank lf)) by (now apply identch_not_blank). cbn [pbind]. apply pbind_err.
+          change sym_map_lt with [x3c]. now apply identch_not_lt. }
     cbn [alt]. unfold pmap. change (h ++ pr_path_tail tl k) with (pr_path (mkCPath h tl) k).
     rewrite (rt_path lf whole Hlf (mkCPath h tl) k Hwp (conj Hk1 (follow_nodot _ k Hf ltac:(sfx_of S))) S). reflexivity.
 Qed.
